@@ -138,7 +138,15 @@ func (b c17SubBlocks) GetBlock(substrateTypes.Hash) (*substrateTypes.SignedBlock
 // RetryV1: event listener returning one retry event whose transaction holds the scripted deposits
 type c17Listener struct {
 	deps []c17Dep
+	cuts []int // deps[cuts[k]:cuts[k+1]] are the deposits of the k-th retried transaction (nil: one transaction)
 	v2   []events.RetryV2Event
+}
+
+func (l *c17Listener) bounds() []int {
+	if l.cuts == nil {
+		return []int{0, len(l.deps)}
+	}
+	return l.cuts
 }
 
 func (l *c17Listener) FetchKeygenEvents(ctx context.Context, a common.Address, s, e *big.Int) ([]ethTypes.Log, error) {
@@ -154,14 +162,21 @@ func (l *c17Listener) FetchDeposits(ctx context.Context, a common.Address, s, e 
 	return nil, nil
 }
 func (l *c17Listener) FetchRetryV1Events(ctx context.Context, a common.Address, s, e *big.Int) ([]events.RetryV1Event, error) {
-	return []events.RetryV1Event{{TxHash: "0x01"}}, nil
+	out := []events.RetryV1Event{}
+	for k := 0; k+1 < len(l.bounds()); k++ {
+		out = append(out, events.RetryV1Event{TxHash: "0x" + itoa(k)})
+	}
+	return out, nil
 }
 func (l *c17Listener) FetchRetryV2Events(ctx context.Context, a common.Address, s, e *big.Int) ([]events.RetryV2Event, error) {
 	return l.v2, nil
 }
 func (l *c17Listener) FetchRetryDepositEvents(ev events.RetryV1Event, a common.Address, conf *big.Int) ([]events.Deposit, error) {
 	out := []events.Deposit{}
-	for i, d := range l.deps {
+	b := l.bounds()
+	k := int(u64(strings.TrimPrefix(ev.TxHash, "0x")))
+	for i := b[k]; i < b[k+1]; i++ {
+		d := l.deps[i]
 		out = append(out, events.Deposit{DestinationDomainID: d.dest, ResourceID: c3Resource(d.res), DepositNonce: d.nonce, Data: []byte{byte(i), d.bad}})
 	}
 	return out, nil
@@ -219,12 +234,18 @@ func init() {
 		}
 		return c17Idx(out) + "|" + c17Final(db, ds)
 	}
-	// retryv1 <deps> <statuses> <faults>  =>  <dest>:<idx,..>;…|<final statuses>
+	// retryv1 <deps[+deps…]> <statuses> <faults>  =>  <dest>:<idx,..>;…|<final statuses>   ('+' separates the retried
+	//   transactions (RetryV1 events) found in the one handled block range; idx = position over all of them)
 	ops["C17.retryv1"] = func(a []string) string {
-		ds := c17Deps(a[0])
+		// several retried transactions inside the handled block range are separated by '+'
+		ds, cuts := []c17Dep{}, []int{0}
+		for _, ev := range strings.Split(a[0], "+") {
+			ds = append(ds, c17Deps(ev)...)
+			cuts = append(cuts, len(ds))
+		}
 		db, ps := c17Store(ds, c3Script(a[1]), a[2])
 		ch := make(chan []*message.Message, 64)
-		h := eventHandlers.NewRetryV1EventHandler(zerolog.Nop().With(), &c17Listener{deps: ds}, c17DepositHandler{}, ps,
+		h := eventHandlers.NewRetryV1EventHandler(zerolog.Nop().With(), &c17Listener{deps: ds, cuts: cuts}, c17DepositHandler{}, ps,
 			common.Address{}, c3Src, big.NewInt(1), ch)
 		if err := h.HandleEvents(big.NewInt(10), big.NewInt(15)); err != nil {
 			return "err"
@@ -556,6 +577,35 @@ func genC17(g *G) {
 			g.Emit("retryv1", "2.1.0"+bad+",2.1.1", st, "-")
 			g.Emit("retryv1", "2.1.0,2.1.1"+bad+",3.1.2", st+"p", "-")
 		}
+	}
+	// ---- RetryV1: SEVERAL retried transactions in one handled block range, with and without a common destination
+	for i := 0; i < g.Count(300, 8000); i++ {
+		evs := []string{}
+		var st strings.Builder
+		idx := 0
+		for e := 1 + g.Intn(3); e > 0; e-- {
+			deps := []string{}
+			for k := g.Intn(4); k > 0; k-- {
+				d := g.Pick([]string{"2", "2", "3", "4"}) + "." + g.Pick([]string{"1", "2"}) + "." + itoa(idx)
+				if g.Intn(8) == 0 {
+					d += g.Pick([]string{"!", "?", "#"})
+				}
+				deps = append(deps, d)
+				st.WriteByte("mmppfe"[g.Intn(6)])
+				idx++
+			}
+			evs = append(evs, joinOr(deps, ","))
+		}
+		fl := "-"
+		if g.Intn(4) == 0 {
+			fl = c17Faults(g, 2*idx, 4)
+		}
+		g.Emit("retryv1", strings.Join(evs, "+"), joinOr1(st.String()), fl)
+	}
+	for _, st := range []string{"mm", "pm", "pp", "em", "fe"} {
+		g.Emit("retryv1", "2.1.0+2.1.1", st, "-")
+		g.Emit("retryv1", "2.1.0+3.1.1", st, "-")
+		g.Emit("retryv1", "2.1.0,3.1.1+-+2.1.2", st+"p", "-")
 	}
 	// ---- the three RetryMessageHandlers
 	for i := 0; i < g.Count(900, 30000); i++ {
